@@ -433,7 +433,15 @@ func (e *Engine) sprintf(format Value, va Slice) Value {
 			case float64:
 				guards, natives = []*Term{tTrue}, []interface{}{x}
 			case *Term:
-				guards, natives = []*Term{tTrue}, []interface{}{symPlaceholder}
+				if vals, ok := e.enumInt(x, it.T, 8); ok {
+					// an integer with a small feasible domain: one alternative per value
+					for _, n := range vals {
+						guards = append(guards, tEq(x, tBV(n, sortBits(x.Sort))))
+						natives = append(natives, nativeInt(n, it.T))
+					}
+				} else {
+					guards, natives = []*Term{tTrue}, []interface{}{symPlaceholder}
+				}
 			default:
 				guards, natives = []*Term{tTrue}, []interface{}{e.nativeDump(v, it.T)}
 			}
@@ -458,6 +466,34 @@ func (e *Engine) sprintf(format Value, va Slice) Value {
 		u.Alts = append(u.Alts, UAlt{a.g, fmt.Sprintf(f, a.args...)})
 	}
 	return normUStr(u)
+}
+
+// enumInt lists the values an integer term can take on the current path if there are at most limit of them.
+func (e *Engine) enumInt(t *Term, typ types.Type, limit int) ([]int64, bool) {
+	if !strings.HasPrefix(t.Sort, "(_ BitVec") {
+		return nil, false
+	}
+	if b, ok := typ.Underlying().(*types.Basic); !ok || b.Info()&types.IsInteger == 0 {
+		return nil, false
+	}
+	ii, _ := intInfoOf(typ)
+	var vals []int64
+	e.solver.Push()
+	defer e.solver.Pop()
+	for len(vals) <= limit {
+		if e.solver.Check() != "sat" {
+			return vals, len(vals) > 0
+		}
+		raw := e.solver.Values([]string{t.S})
+		n, ok := modelInt(raw[0])
+		if !ok {
+			return nil, false
+		}
+		n = normInt(n, ii)
+		vals = append(vals, n)
+		e.solver.Assert(tNot(tEq(t, tBV(n, sortBits(t.Sort)))))
+	}
+	return nil, false
 }
 
 func isBasicNonString(t types.Type) bool {
